@@ -1,0 +1,39 @@
+//go:build verif
+// +build verif
+
+package wire
+
+import (
+	"encoding/json"
+	"io/ioutil"
+	"os"
+	"sync"
+)
+
+// Verification hooks (build tag verif): loop-iteration counters of the
+// analysis, written as JSON to $WIRE_VERIF_STATS when Generate or Load return.
+
+var (
+	verifMu     sync.Mutex
+	verifCounts = map[string]int{}
+)
+
+func verifTick(name string) {
+	verifMu.Lock()
+	verifCounts[name]++
+	verifMu.Unlock()
+}
+
+func verifFlush() {
+	path := os.Getenv("WIRE_VERIF_STATS")
+	if path == "" {
+		return
+	}
+	verifMu.Lock()
+	defer verifMu.Unlock()
+	b, err := json.Marshal(verifCounts)
+	if err != nil {
+		return
+	}
+	ioutil.WriteFile(path, b, 0666)
+}
